@@ -176,6 +176,44 @@ fn check_log(dir: &str, tag: &str, out: &mut ChildOut, sinces_extra: &[u64]) {
     }
 }
 
+/// Conservation between what the writer was given and what the files hold. `from` = index into `written` from which on
+/// everything must be on disk (usize::MAX: find it — pruning may have dropped a prefix, never anything in the middle).
+/// Returns the index from which on the files hold everything.
+fn conservation(dir: &str, written: &[(u64, u64, u64, u8)], from: usize, tag: &str, out: &mut ChildOut) -> Option<usize> {
+    let (recs, per_file) = scan(dir);
+    let on_disk: BTreeSet<(u64, u64, u64, u8)> = recs.iter().map(|r| (r.time, r.db, r.key, r.op)).collect();
+    let start = if from == usize::MAX {
+        // the longest suffix of `written` that is completely on disk
+        let mut i = written.len();
+        while i > 0 && on_disk.contains(&written[i - 1]) {
+            i -= 1;
+        }
+        i
+    } else {
+        from
+    };
+    let expected: BTreeSet<(u64, u64, u64, u8)> = written[start..].iter().cloned().collect();
+    let missing: Vec<&(u64, u64, u64, u8)> = expected.iter().filter(|r| !on_disk.contains(*r)).collect();
+    // after a pruning older records may legitimately survive in part of a file; records nobody wrote may not exist
+    let all: BTreeSet<(u64, u64, u64, u8)> = written.iter().cloned().collect();
+    let alien: Vec<&(u64, u64, u64, u8)> = on_disk.iter().filter(|r| !all.contains(*r)).collect();
+    if !missing.is_empty() || !alien.is_empty() {
+        let sig = json!({"check": "oplog", "problem": if !missing.is_empty() { "written-record-not-in-any-file" } else { "file-holds-a-record-nobody-wrote" }, "when": tag});
+        if out.problems.len() < 400 {
+            out.problems.push((sig, json!({"tag": tag, "files": per_file, "written": written.len(), "must_be_on_disk_from_index": start, "missing_time_db_key_op": missing.iter().take(20).collect::<Vec<_>>(), "alien": alien.iter().take(20).collect::<Vec<_>>()})));
+        }
+        return None;
+    }
+    if from == usize::MAX {
+        // a pruning keeps at least the current file and the newest rotated files: it cannot have dropped everything
+        if start == written.len() && !written.is_empty() {
+            out.problems.push((json!({"check": "oplog", "problem": "nothing-written-is-left", "when": tag}), json!({"tag": tag, "files": per_file})));
+            return None;
+        }
+    }
+    Some(start)
+}
+
 fn fresh(dir: &str) {
     let _ = std::fs::remove_dir_all(dir);
     std::fs::create_dir_all(dir).unwrap();
@@ -215,9 +253,13 @@ pub fn child(args: &[String]) -> i32 {
         let strict = i % 3 != 0;
         let mut t = 1000u64;
         let mut stream = Oplog::get_log_file_append_mode();
+        // what the writer was given, in order: the files must account for all of it (conservation), whatever the queries return
+        let mut written: Vec<(u64, u64, u64, u8)> = vec![];
         for j in 0..n {
             t += if strict { rng.range(1, 9) as u64 } else { *rng.pick(&[0u64, 0, 1, 2, 7]) };
-            let _ = Oplog::try_write_op_log(&mut stream, Some(rng.range(1, 2) as u64), rng.range(10, 15) as u64, &op_of(rng.below(4) as u8), t);
+            let (wdb, wkey, wop) = (rng.range(1, 2) as u64, rng.range(10, 15) as u64, rng.below(4) as u8);
+            let _ = Oplog::try_write_op_log(&mut stream, Some(wdb), wkey, &op_of(wop), t);
+            written.push((t, wdb, wkey, op_of(wop).to_u8()));
             if j % 97 == 96 && i % 4 == 1 {
                 // the writer is reopened (process restart)
                 drop(stream);
@@ -225,6 +267,7 @@ pub fn child(args: &[String]) -> i32 {
             }
         }
         drop(stream);
+        conservation(&dir, &written, 0, "after-writing", &mut out);
         check_log(&dir, &format!("long n={} strict={}", n, strict), &mut out, &[]);
         if i % 2 == 0 {
             // a restart opens the writer (which may rotate a full file) before anything is written
@@ -251,6 +294,21 @@ pub fn child(args: &[String]) -> i32 {
             out.problems.push((json!({"check": "oplog", "problem": "pruning-kept-more-than-the-configured-size"}), json!({"before": files_before.len(), "after": files_after.len()})));
         }
         check_log(&dir, "after-pruning", &mut out, &[]);
+        // the log goes on after the pruning: more records, more rotations, and nothing that was kept may disappear
+        let kept_from = conservation(&dir, &written, usize::MAX, "after-pruning", &mut out);
+        let mut stream = Oplog::get_log_file_append_mode();
+        let more = rng.range(10, (per_file as usize * 4).clamp(20, 600));
+        for _ in 0..more {
+            t += if strict { rng.range(1, 9) as u64 } else { *rng.pick(&[0u64, 0, 1, 2, 7]) };
+            let (wdb, wkey, wop) = (rng.range(1, 2) as u64, rng.range(10, 15) as u64, rng.below(4) as u8);
+            let _ = Oplog::try_write_op_log(&mut stream, Some(wdb), wkey, &op_of(wop), t);
+            written.push((t, wdb, wkey, op_of(wop).to_u8()));
+        }
+        drop(stream);
+        if let Some(k) = kept_from {
+            conservation(&dir, &written, k, "writing-on-after-pruning", &mut out);
+        }
+        check_log(&dir, "written-on-after-pruning", &mut out, &[]);
     }
     let doc = json!({
         "queries": out.queries, "logs": out.logs, "shapes": out.shapes.iter().cloned().collect::<Vec<_>>(), "max_files": out.max_files, "prune_checks": out.prune_checks,
